@@ -6,6 +6,14 @@ depths, symlinks to files and directories OUTSIDE the tree with sentinels there)
 `breezy.clean_tree.clean_tree(dir, unknown, ignored, detritus, dry_run, no_prompt=True)` runs for all 2^3
 category combinations x dry_run (real runs each on a fresh copy) and everything that disappeared or changed
 on disk is classified.  Only safety is a verdict; completeness is reported in the histogram.
+
+Kind drift: after the paths were versioned, some of them change kind on disk without the tree being told (a versioned
+directory is relocated outside the tree and a relative or absolute symlink left in its place, with files in the new home
+and in its versioned subdirectories that were never part of the tree; the link points at another directory of the same
+tree; file <-> directory <-> symlink swaps; missing directories).  The deletables that clean_tree hands to the real
+delete_items are observed (which ancestor component is a symlink, where the deletable really lives) so that a removal is
+attributed to its mechanism: listed in a versioned directory that is a symlink now / listed in a versioned subdirectory
+below such a link / listed through an unversioned symlink / the deletable itself was a symlink that was followed.
 """
 import os
 import shutil
@@ -18,10 +26,12 @@ LEVEL = "exploration"
 TECHNIQUE = "disk-diff safety monitor around the real clean_tree() on generated layouts, all option combinations"
 LEVEL_TEXT = ("for every generated layout and each of the 16 (unknown, ignored, detritus, dry_run) settings the set of paths removed or altered on disk "
               "(tree, nested branches, own control directory, and the directories outside the tree that symlinks point to) was computed and each such path judged: "
-              "outside the tree / versioned / ancestor of versioned / in a nested branch / category not requested / dry run")
+              "outside the tree / versioned / ancestor of versioned / in a nested branch / category not requested / dry run; removals reached through a "
+              "symlinked ancestor of an observed deletable are keyed by that mechanism")
 RULE = ("case = one random layout in a bzr 2a or git working tree (alternating); 16 executions per case (8 dry on the layout, 8 real on copies); "
-        "one evaluation = one execution judged; non-trivial = the layout has >= 1 nested branch or outside symlink and the execution had something to delete or protect; "
-        "distinct = tree format + flags + sorted classes of deleted and of surviving unversioned paths")
+        "one evaluation = one execution judged; every 4th case (bzr) has a versioned directory relocated outside the tree behind a symlink, most others some kind drift of versioned paths; "
+        "non-trivial = the layout has >= 1 nested branch, outside symlink or drifted versioned path and the execution had something to delete or protect; "
+        "distinct = tree format + flags + sorted classes of deleted and of surviving unversioned paths + kinds of drift")
 CASES = {"quick": 32, "thorough": 480}
 BUDGET_S = {"quick": 45, "thorough": 700}
 MIN_EVALS = {"quick": 160, "thorough": 3000}
@@ -33,6 +43,9 @@ ASSUMPTIONS = [
     "a deleted path is covered when it or an unversioned ancestor directory is in a requested category (an unknown directory goes with its content)",
     "a nested branch = a directory holding a .bzr or .git control directory created by the generator, with everything below it",
     "the tree's own control directory is compared by path set only (lock / index refresh may rewrite files)",
+    "versioned = what the tree listed before the on-disk kinds drifted; in a git tree a file or symlink standing where a directory of versioned files was is an unversioned path",
+    "directories outside the tree are reachable only through symlinks the generator made; absolute links in the copies point into the layout's own outside/, "
+    "which is judged after every real run and restored from a master copy",
 ]
 
 DETRITUS_SUFFIXES = (".THIS", ".BASE", ".OTHER", "~", ".tmp", ".orig", ".rej", ".moved")
